@@ -332,9 +332,15 @@ class Parser:
             if v == 'break':
                 self.next(); self.expect(';'); return ('break',)
             if v == 'using':
-                while not self.at(';'):
-                    self.next()
                 self.next()
+                toks = []
+                while not self.at(';'):
+                    toks.append(self.next()[1])
+                self.next()
+                if toks and toks[0] != 'namespace' and '=' in toks:
+                    # using name = type;   -> ('alias', name, type text without blanks)
+                    i = toks.index('=')
+                    return ('alias', ' '.join(toks[:i]), ''.join(toks[i + 1:]))
                 return ('using',)
             if v in ('do', 'switch', 'try', 'goto', 'throw', 'case'):
                 self.err('statement kind not supported')
